@@ -207,3 +207,61 @@ func (c *Ctx) ruleWriteDirtyBatch() {
 }
 
 var _ = token.ADD
+
+// R-ROOTRECV: functions that treat `n == t.root` specially (root nodes are always hashed) must be invoked on the trie
+// whose root they are given.
+func (c *Ctx) ruleRootRecv() {
+	c.doc("R-ROOTRECV", "every call X.m(…, Y.root, …) of a method that compares its node argument with its receiver's root (writeDirtyNode, ensureMerkleValueIsCalculated, getInsertedNodeHashesAtNode) has X == Y: a child trie's root written through the parent trie is treated as an inlinable non-root node and never stored")
+	sp := c.ssaPkg(inmemDir)
+	if sp == nil {
+		return
+	}
+	// methods that compare a parameter with t.root
+	rootSensitive := map[*ssa.Function]bool{}
+	for _, f := range allFuncs(c, sp) {
+		if f.Signature.Recv() == nil || len(f.Params) < 2 {
+			continue
+		}
+		eachInstr(f, func(_ *ssa.BasicBlock, _ int, in ssa.Instruction) {
+			bo, ok := in.(*ssa.BinOp)
+			if !ok || (bo.Op != token.EQL && bo.Op != token.NEQ) {
+				return
+			}
+			for _, pair := range [][2]ssa.Value{{bo.X, bo.Y}, {bo.Y, bo.X}} {
+				if _, isParam := pair[0].(*ssa.Parameter); !isParam || !isNodePtr(pair[0].Type()) {
+					continue
+				}
+				if b, ok := isFieldLoadNamed(pair[1], "root"); ok && b == ssa.Value(f.Params[0]) {
+					rootSensitive[f] = true
+				}
+			}
+		})
+	}
+	if len(rootSensitive) == 0 {
+		c.ob("R-ROOTRECV", "root-sensitive-methods", sp.Members["init"].Pos(), false, "no method comparing its node argument with t.root found (anchor changed)")
+		return
+	}
+	n := 0
+	for _, f := range allFuncs(c, sp) {
+		ord := 0
+		eachInstr(f, func(_ *ssa.BasicBlock, _ int, in ssa.Instruction) {
+			call, ok := in.(*ssa.Call)
+			if !ok || !rootSensitive[call.Call.StaticCallee()] {
+				return
+			}
+			for _, a := range call.Call.Args[1:] {
+				b, ok := isFieldLoadNamed(a, "root")
+				if !ok {
+					continue
+				}
+				ord++
+				n++
+				c.ob("R-ROOTRECV", fmt.Sprintf("%s:%s(root)#%d", relName(f.String()), call.Call.StaticCallee().Name(), ord), call.Pos(), sameValue(b, call.Call.Args[0]),
+					fmt.Sprintf("%s passes the root of one trie to %s invoked on another trie: the root is not recognised as a root (roots are always stored by hash, even when shorter than 32 bytes)", shortFn(f), call.Call.StaticCallee().Name()))
+			}
+		})
+	}
+	if n == 0 {
+		c.ob("R-ROOTRECV", "root-calls", sp.Members["init"].Pos(), false, "no call passing a trie root found (anchor changed)")
+	}
+}
